@@ -83,10 +83,25 @@ func Load(repo, tier string, tests bool) (*Ctx, error) {
 			add(a)
 		}
 	}
-	for _, sp := range spkgs {
+	// with Tests, a package appears twice (plain and "[p.test]" variant that also contains the plain files): analyse only the variant
+	hasVariant := map[string]bool{}
+	for _, p := range pkgs {
+		if strings.Contains(p.ID, "[") && !strings.HasSuffix(p.PkgPath, "_test") {
+			hasVariant[p.PkgPath] = true
+		}
+	}
+	kept := map[*ssa.Package]bool{}
+	for i, sp := range spkgs {
 		if sp == nil {
 			continue
 		}
+		if tests && hasVariant[pkgs[i].PkgPath] && !strings.Contains(pkgs[i].ID, "[") {
+			continue
+		}
+		if strings.HasSuffix(pkgs[i].PkgPath, ".test") {
+			continue
+		}
+		kept[sp] = true
 		for _, m := range sp.Members {
 			switch m := m.(type) {
 			case *ssa.Function:
@@ -109,6 +124,9 @@ func Load(repo, tier string, tests bool) (*Ctx, error) {
 		}
 		if o.Pkg == nil || !strings.HasPrefix(o.Pkg.Pkg.Path(), modPath) {
 			continue
+		}
+		if !kept[o.Pkg] {
+			continue // instantiation of a generic from a package copy we skip
 		}
 		add(f)
 	}
